@@ -48,9 +48,11 @@ def declare_constants(ctx):
 # --------------------------------------------------------------------------------------
 # symbolic duck calculator
 # --------------------------------------------------------------------------------------
-def make_duck(ctx, nq, np_, nv, n_sym_T=1, with_T0=True, gamma_acoustic_zero=True, tag=""):
+def make_duck(ctx, nq, np_, nv, n_sym_T=1, with_T0=True, gamma_acoustic_zero=True, tag="", t0_last=False):
     """A plain object exposing exactly what the anchored classes read."""
     temps = ([Sym({})] if with_T0 else []) + [ctx.var("T%d%s" % (i + 1, tag), positive=True) for i in range(n_sym_T)]
+    if t0_last and with_T0:
+        temps = temps[1:] + temps[:1]      # the T=0 row is not the first one: masking must go by value, not by position
     nt = len(temps)
     d = Obj()
     d.nq, d.np, d.nv, d.na = nq, np_, nv, np_ // 3
